@@ -64,6 +64,13 @@ example : block (B - 1) (B - 1) (B - 1) (B - 1) = 256 := by decide
 theorem tailLimb_fields (u : Nat) (hu : u < B) : tailLimb u = mapB pc8 8 u := tailLimb_bytes u hu
 example : tailLimb 0xffff00000f0100f3 = 0x0808000004010006 := by decide
 
+/-- popcount.c:93-114, the tail for the n & 3 remaining limbs (any list of at most 3 limbs, all contents): the byte
+    fields of x stay ≤ 24 during the accumulation :101 (no carry between fields, no wrap), the folds :109-112 add them
+    and the masked byte :114 is exactly the number of one bits of the remaining limbs (≤ 192, fits the byte). -/
+theorem tail_eq (us : List Nat) (hl : Limbs us) (hn : us.length ≤ 3) :
+    tailFin (tailLoop us 0) = Bits.mpn_popcount us := tail_popc us hl hn
+example : tailFin (tailLoop [B - 1, B - 1, B - 1] 0) = 192 := by decide
+
 /-! popcount.c:79 masks BEFORE adding: a full block contributes 256, which does not fit the byte field.  The variant
     `x = (x >> 32) + x; … x & 0xff` (what the tail at :112-114 does, where at most 3 limbs = 192 bits arrive) is WRONG
     for the block: on four all-ones limbs it yields 0. -/
